@@ -4,6 +4,8 @@
 //! trusted: monitor_updating_paused is extracted whole; monitor_updating_restored, ChainMonitor::channel_monitor_updated and ChainMonitor::update_channel_internal are deep R15 slices (the statements named in the note); env: FundedChannel / ChannelContext are field skeletons; the held items are opaque; get_last_revoke_and_ack / get_last_commitment_update_for_send are external_body with unconstrained results; ChannelState is a two-flag skeleton (monitor update in progress, peer disconnected) with the macro-generated accessors' meaning; enum ChannelMonitorUpdateStatus extracted
 //! trusted: R15 (deep slices): the eight places in channel.rs where a FundedChannel increments latest_monitor_update_id and builds a ChannelMonitorUpdate (get_update_fulfill_htlc, splice_initial_commitment_signed, commitment_signed_update_monitor, revoke_and_ack, shutdown, maybe_promote_splice_funding, build_commitment_no_status_check, get_shutdown): the increment statement and the `update_id:` expression, verbatim; force_shutdown (id after the last unblocked update) and free_holding_cell_htlcs (id + 1, merged into the next update) are not sliced
 //! trusted: R15 (deep slice): ChannelManager::handle_channel_resumption: the two function-local macros handle_cs! / handle_raa! and the match on commitment_order that invokes them, verbatim (the macro definitions are part of the slice); MessageSendEvent is a two-variant skeleton; channel_ready / tx_signatures / announcement_sigs / forwards handling around it is dropped and not claimed
+//! trusted: ChannelManager::handle_monitor_update_res is extracted whole (the logger type parameter instantiated, the startup flag an AtomicFlag stub); handle_new_monitor_update_locked_actions_handled_by_caller: the statements after the Watch call (removal of a completed update from the in-flight list, the defensive panic, the result pair) are sliced as a function of the in-flight list; handle_new_monitor_update_with_status / handle_post_close_monitor_update: the conditions under which the channel is resumed / the blocked actions released (slices)
+//! trusted: R10: `panic!(..)` statements the source reaches on purpose (unrecoverable persistence failure; a Watch that reports Completed while earlier updates are in progress) are calls of a stub that never returns
 //! trusted: R9: `a |= b;` on bools with a side-effect-free right operand is written `a = a || b;` (Verus has no non-short-circuit `|` on bools); R8: `v.extend(w)` -> vec_extend (v becomes v followed by w); R3: log statements removed; R10: arguments of get_last_revoke_and_ack (a path callback and the logger) and of get_last_commitment_update_for_send (the logger) dropped
 //! assume: nothing here decides *when* these functions are called: that every state-advancing handler ends in monitor_updating_paused, that ChannelManager calls monitor_updating_restored only after every in-flight update completed, and the per-channel update-id order are not claimed
 use vstd::prelude::*;
@@ -244,11 +246,84 @@ pub open spec fn raa_event(raa: Option<RevokeAndACK>, n: PublicKey) -> Seq<Messa
 //@with
     RAACommitmentOrder::CommitmentFirst => { handle_raa!(); handle_cs!(); },
 //@end
-// ---- ChainMonitor ------------------------------------------------------------------------------------------------
 //@extract lightning/src/chain/mod.rs :: enum ChannelMonitorUpdateStatus
 //@end
 impl vstd::std_specs::cmp::PartialEqSpecImpl for ChannelMonitorUpdateStatus { open spec fn obeys_eq_spec() -> bool { true } open spec fn eq_spec(&self, other: &ChannelMonitorUpdateStatus) -> bool { *self == *other } }
 impl PartialEq for ChannelMonitorUpdateStatus { #[verifier::external_body] fn eq(&self, o: &ChannelMonitorUpdateStatus) -> (r: bool) { unimplemented!() } }
+// ---- ChannelManager: holding until every in-flight update of the channel completed --------------------------------
+pub struct AtomicFlag { pub v: bool }
+pub enum Ordering { Acquire, Relaxed }
+impl AtomicFlag { #[verifier::external_body] pub fn load(&self, o: Ordering) -> (r: bool) ensures r == self.v { unimplemented!() } }
+pub struct LoggerStub {}
+// the source panics on purpose (unrecoverable persistence failure; a Watch that breaks its contract): never returns
+#[verifier::external_body] pub fn panics_on_purpose<T>() -> (r: T) ensures false { unimplemented!() }
+pub struct ChannelManager { pub background_events_processed_since_startup: AtomicFlag }
+pub struct InFlightUpdate { pub update_id: u64 }
+impl ChannelManager {
+//@extract lightning/src/ln/channelmanager.rs :: impl ChannelManager :: fn handle_monitor_update_res
+//@rw R5
+    fn handle_monitor_update_res<LG: Logger>( &self, update_res: ChannelMonitorUpdateStatus, logger: LG, )
+//@with
+    fn handle_monitor_update_res( &self, update_res: ChannelMonitorUpdateStatus, logger: LoggerStub, )
+//@rw * R10
+    panic!($m:any);
+//@with
+    return panics_on_purpose();
+//@ret r
+//@requires
+    self.background_events_processed_since_startup.v,
+//@ensures P C09 what-depends-on-a-monitor-update-is-held-unless-the-watch-reported-that-very-update-completed
+    r == (update_res is Completed),
+//@mutant in_progress_treated_as_completed
+    false }, ChannelMonitorUpdateStatus::Completed => true,
+//@with
+    true }, ChannelMonitorUpdateStatus::Completed => true,
+//@end
+//@extract lightning/src/ln/channelmanager.rs :: impl ChannelManager :: fn handle_new_monitor_update_locked_actions_handled_by_caller
+//@slice R15
+    let update_completed = $uc:seq; $body:any ($a:seq, $b:seq) } else { let event = BackgroundEvent::MonitorUpdateRegeneratedOnStartup
+//@with
+    fn note_update_result(in_flight_updates: &mut Vec<InFlightUpdate>, update_idx: usize, update_completed: bool, is_replay: bool) -> (bool, bool) {
+        $body
+        ($a, $b)
+    }
+//@rw * R10
+    panic!($m:any);
+//@with
+    return panics_on_purpose();
+//@ret r
+//@requires
+    update_idx < old(in_flight_updates)@.len(),
+//@ensures P C09 a-channel-counts-as-fully-persisted-only-when-this-update-completed-and-no-other-update-of-the-channel-is-still-in-flight
+    r.0 == update_completed,
+    r.1 == (update_completed && old(in_flight_updates)@.len() == 1),
+    update_completed ==> final(in_flight_updates)@ == old(in_flight_updates)@.remove(update_idx as int),
+    !update_completed ==> final(in_flight_updates)@ == old(in_flight_updates)@,
+//@mutant all_complete_although_updates_remain_in_flight
+    (update_completed, update_completed && in_flight_updates.is_empty())
+//@with
+    (update_completed, update_completed)
+//@end
+}
+//@extract lightning/src/ln/channelmanager.rs :: impl ChannelManager :: fn handle_new_monitor_update_with_status
+//@slice R15
+    let completion_data = if $c:cond { Some(
+//@with
+    fn channel_is_resumed_after_new_update(all_updates_complete: bool, update_completed: bool) -> bool { $c }
+//@ret r
+//@ensures P C09 a-channel-is-resumed-after-a-new-update-only-when-all-its-in-flight-updates-completed
+    r == all_updates_complete,
+//@end
+//@extract lightning/src/ln/channelmanager.rs :: impl ChannelManager :: fn handle_post_close_monitor_update
+//@slice R15
+    if $c:cond { Some(monitor_update_blocked_actions.remove(&channel_id).unwrap_or(Vec::new())) } else { None }
+//@with
+    fn post_close_actions_are_released(all_updates_complete: bool, _update_completed: bool) -> bool { $c }
+//@ret r
+//@ensures P C09 the-actions-blocked-on-a-closed-channels-updates-are-released-only-when-all-its-in-flight-updates-completed
+    r == all_updates_complete,
+//@end
+// ---- ChainMonitor ------------------------------------------------------------------------------------------------
 //@extract lightning/src/chain/chainmonitor.rs :: impl ChainMonitor :: fn channel_monitor_updated
 //@slice R15
     pending_monitor_updates.retain(|update_id| $p:cond);
